@@ -221,7 +221,7 @@ func concurrentDupChild(w *core.WorkerCtx, report []string) {
 	n := world.Nodes[0]
 	u := world.Users
 	for i := 1; i < len(u); i++ {
-		t := world.NewTrx(u[0], u[i].Addr, spice.Melange{Currency: 1000}, nil)
+		t := world.NewTrx(u[0], u[i].Addr, spice.Melange{Currency: 100}, nil)
 		world.Propose(n, &t, "fund")
 	}
 	rounds := w.Pick(40, 200)
@@ -243,6 +243,9 @@ func concurrentDupChild(w *core.WorkerCtx, report []string) {
 		amt := spice.Melange{SupplementaryCurrency: uint64(1 + rng.Intn(50))}
 		if m%3 == 0 {
 			data, amt = []byte(fmt.Sprintf("contract %d", m)), spice.Melange{}
+		}
+		if m%5 == 4 {
+			amt = spice.Melange{Currency: 1 << 30} // not covered: the child's arrival drops it, a later copy may bring it back
 		}
 		vt := world.NewTrx(from, u[1+(m+1)%3].Addr, amt, data)
 		v := ledger.ForgeVertex(world.Sealers[0], vt, tip, tip, wgt+1, world.Now())
@@ -302,12 +305,8 @@ func concurrentDupChild(w *core.WorkerCtx, report []string) {
 			world.EvalFor(p, 1)
 			world.NontrivFor(p, fmt.Sprintf("dup-child/k%d/admitted%d/child-attached=%v/proposals-ok=%d", k, min(oks, 2), cerr == nil, b2i(perrs[0] == nil)+b2i(perrs[1] == nil)))
 		}
-		if oks > 1 {
-			world.Violate("C03", "vertex-admitted-twice", fmt.Sprintf("%d of %d concurrent deliveries of vertex %s reported success", oks, k, ledger.Hex(v.Hash)))
-		}
-		if perrs[0] == nil && perrs[1] == nil {
-			world.Violate("C03", "transaction-proposed-twice-accepted-twice", fmt.Sprintf("both concurrent proposals of transaction %s reported success", ledger.Hex(pt.Hash)))
-		}
+		// (how many calls reported success is not judged: a vertex that was admitted and then dropped as an invalid tip by
+		// the next arrival may legitimately be admitted again; the snapshot decides)
 		for i := 0; i < 3; i++ {
 			world.Retry(n)
 		}
